@@ -218,6 +218,15 @@ def run(tier, seed):
         viol = viol + [{"what": "model: flush() does not terminate (%s)" % _lv.violation, "replay": v.save_replay("c18", "mc_live.out", _lv.out[-6000:]), "key": "mc live"}]
     cov["liveness_states"] = _lv.distinct
     _ce.mc_model(rd, "MCWriteBehind", "MCWriteBehind_mut_FlushGivesUp.cfg", workers=2, expect_violation=True, timeout=600)
+    if tier != "quick":
+        # the handshake across shards (Coord.tla) under weak fairness of the coordinator, the workers, the callers and
+        # a reader that unpins: force_flush terminates, a close ends with every worker exited, everything queued drains
+        _cl = v.run_tlc("MCCoord", "MCCoord_live.cfg", rd, workers=4, timeout=3600, coverage=False, xmx="12g")
+        v.tlc_ok(_cl, "MCCoord(live)")
+        cov["coord_liveness_states"] = _cl.distinct
+        if _cl.violation:
+            viol = viol + [{"what": "model Coord.tla: %s (FlushTerminates / ClosesCleanly / Drains)" % _cl.violation,
+                            "replay": v.save_replay("c18", "coord_live.out", _cl.out[-6000:]), "key": "coord live"}]
     return {"level": "model_checking", "coverage": cov, "violations": viol,
             "assumptions": ["lock requests and releases are logged by the lock types themselves (verif::locks wrappers around parking_lot, tied to the real guards); locks outside the store / write-buffer modules (cache buckets, record value cells, hash bucket guards) are not logged",
                             "channels (bounded worker queues, response channels) are not part of the skeleton; "
